@@ -55,6 +55,11 @@ CLAIMED["C11"] = dict(engine="analysis", technique="TLA+ specification of graph 
     text="Analysis.tla defines Valid from the property text (undefined dependency, cycles incl. self and through aliases, duplicate labels, overlapping outputs of targets not ordered by dependency after path normalisation, inputs escaping the package, outputs escaping the workspace, non-test target depending on test/testonly targets with aliases resolved) independently of internal/analysis; every graph of the families is one TLC state and is rendered to BUILD.json/BUILD.yaml files and pushed through the real loader, BuildNodeMapFromPackages, BuildGraph and CheckTargetConstraints; accept/reject must equal Valid. A sample goes through `grog check` and `grog build`: exit status must agree and nothing may run on a rejected graph.",
     note="Family A: 3 nodes, targets/aliases, deps over {n1,n2,n3,undefined}, plain/test/testonly (140 608 graphs; quick: every 7th); B: 3 targets in p, p, p/d, 5 dependency shapes, 10/13 output spellings (./, a/../b, trailing slash, nested package, ../, absolute, dir::, docker::); C: all subsets of 7 input spellings; D: 7 duplicate layouts. Trusted: TLC, the renderer in harness/cmd/h/analysis.go.")
 
+CLAIMED["C12"] = dict(engine="selection", technique="TLA+ specification of selection (pattern and filter matches plus dependency closure through aliases, platform errors) enumerated by TLC over all (graph, invocation) pairs of a bounded universe; replayed into the real Selector and (sample) the CLI (enumerated-case conformance)",
+    category="model_checking", design_ref="DESIGN.md section 4.7, section 7 C12",
+    text="Selection.tla computes, for every valid 4-node graph with an optional alias, tags, test names and platform restrictions and for every invocation (11 pattern sets incl. absolute, relative, recursive, :all, shorthand; tag / exclude-tag; build vs test; host platform vs --all-platforms), the selected target set or the platform error, and TLC checks that the selection is dependency-closed and contains nothing else. Every pair is selected by the real selection.Selector on real model nodes and BuildGraph; a sample is run through grog build / grog test with an empty cache, where exactly the selected targets' commands must run and a platform-incompatible dependency must fail the invocation without running anything.",
+    note="3 600 (quick) / ~14 000 (thorough) graphs x 132 invocations; pairs where a matched alias's target fails the filters are out of the property's domain and skipped (counted). Trusted: TLC, C17 for the meaning of pattern strings, the node builder in harness/cmd/h/selection.go.")
+
 PENDING = "check not built yet in this round (specification and binding planned in DESIGN.md section 7); not claimed until its quick tier is registered"
 
 checks, na = [], []
@@ -93,6 +98,7 @@ manifest = {
    {"name": "keys", "path": "spec/KeyEncoding.tla + harness/cmd/h/keys.go + vlib/checks/c09.py", "serves_properties": ["C09"], "kind_free_text": "TLC-enumerated universe of key states, real hashing compared by partition"},
    {"name": "restore", "path": "spec/Restore.tla + spec/DirLoad.tla + harness/restoredrv + vlib/checks/c06.py", "serves_properties": ["C06", "C04"], "kind_free_text": "TLC-enumerated restore cases replayed into the real handlers; read-fault subsets under synctest"},
    {"name": "analysis", "path": "spec/Analysis.tla + harness/cmd/h/analysis.go + vlib/checks/c11.py", "serves_properties": ["C11"], "kind_free_text": "TLC-enumerated graph families replayed into the real loader/analysis and the CLI"},
+   {"name": "selection", "path": "spec/Selection.tla + harness/cmd/h/selection.go + vlib/checks/c12.py", "serves_properties": ["C12"], "kind_free_text": "TLC-enumerated (graph, invocation) pairs replayed into the real Selector and the CLI"},
    {"name": "labels", "path": "spec/Labels.tla + harness/cmd/h/labels.go + vlib/checks/c17.py", "serves_properties": ["C17"], "kind_free_text": "TLC-enumerated function specification, reference table replayed into the real API"},
  ],
  "checks": checks,
